@@ -62,6 +62,17 @@ AGGREGATION_KIND__COMPOSITE  =  '67'
 '''----------------------------------------------------------------------'''
 
 
+def StripOwnNamespace(fully_qualified_type, namespace):
+    """
+    A type of the class' own namespace is written without it: remove 'namespace::' where it is the
+    leading qualification of the type - and nowhere else ('Types::' is no part of 'XTypes::CPacket',
+    and an element outside any package has no namespace to remove).
+    """
+    if namespace and fully_qualified_type.startswith(namespace + "::"):
+        return fully_qualified_type[len(namespace) + 2:]
+    return fully_qualified_type
+
+
 def CleanName(name):
     return name.replace('=', '_').replace('<', '_').replace('>', '_').replace(';', '_').replace(r'\n', '_').\
         replace(r'\r', '_').replace(r'\t', '_').replace('\n', '_').replace('\r', '_').replace('\t', '_').\
@@ -767,7 +778,7 @@ class Class(vppfs.VPPModelElement):
                             c = ClassAttribute(None, None)
                             name = CleanName(assoc.NAME)
                             if not name:
-                                name = "m_" + assoc.CLASS_TO.replace(self.NAMESPACE + "::", "").replace("::", "_")
+                                name = "m_" + StripOwnNamespace(assoc.CLASS_TO, self.NAMESPACE).replace("::", "_")
                             c.From(name, assoc.CLASS_TO, assoc.CLASS_TO_ID, "", assoc.CLASS_FROM_MULTIPLICITY, assoc.CLASS_FROM_IS_STATIC, assoc.CLASS_FROM_IS_CONST, assoc.CLASS_FROM_VISIBILITY, assoc.CLASS_FROM_HAS_GETTER, assoc.CLASS_FROM_HAS_SETTER, assoc.USER_COMMENTS)
                             c.VISIBILITY = assoc.CLASS_FROM_VISIBILITY
                             result.append(c)
@@ -781,7 +792,7 @@ class Class(vppfs.VPPModelElement):
                             c = ClassAttribute(None, None)
                             name = CleanName(assoc.NAME)
                             if not name or is_composite:
-                                name = "m_" + ("child_" if is_composite else "") + assoc.CLASS_TO.replace(self.NAMESPACE + "::", "").replace("::", "_")
+                                name = "m_" + ("child_" if is_composite else "") + StripOwnNamespace(assoc.CLASS_TO, self.NAMESPACE).replace("::", "_")
                             c.From(name, assoc.CLASS_TO, assoc.CLASS_TO_ID, "*", assoc.CLASS_FROM_MULTIPLICITY, assoc.CLASS_FROM_IS_STATIC, assoc.CLASS_FROM_IS_CONST, assoc.CLASS_FROM_VISIBILITY, assoc.CLASS_FROM_HAS_GETTER, assoc.CLASS_FROM_HAS_SETTER, assoc.USER_COMMENTS)
                             c.VISIBILITY = assoc.CLASS_FROM_VISIBILITY
                             result.append(c)
@@ -791,7 +802,7 @@ class Class(vppfs.VPPModelElement):
                             c = ClassAttribute(None, None)
                             name = CleanName(assoc.NAME)
                             if not name or is_composite:
-                                name = "m_" + ("parent_" if is_composite else "") + assoc.CLASS_FROM.replace(self.NAMESPACE + "::", "").replace("::", "_")
+                                name = "m_" + ("parent_" if is_composite else "") + StripOwnNamespace(assoc.CLASS_FROM, self.NAMESPACE).replace("::", "_")
                             c.From(name, assoc.CLASS_FROM, assoc.CLASS_FROM_ID, "*", assoc.CLASS_TO_MULTIPLICITY, assoc.CLASS_TO_IS_STATIC, assoc.CLASS_TO_IS_CONST, assoc.CLASS_TO_VISIBILITY, assoc.CLASS_TO_HAS_GETTER, assoc.CLASS_TO_HAS_SETTER, assoc.USER_COMMENTS)
                             c.VISIBILITY = assoc.CLASS_TO_VISIBILITY
                             result.append(c)
@@ -802,7 +813,7 @@ class Class(vppfs.VPPModelElement):
                             c = ClassAttribute(None, None)
                             name = CleanName(assoc.NAME)
                             if not name:
-                                name = "m_" + assoc.CLASS_TO.replace(self.NAMESPACE + "::", "").replace("::", "_")
+                                name = "m_" + StripOwnNamespace(assoc.CLASS_TO, self.NAMESPACE).replace("::", "_")
                             c.From(name, assoc.CLASS_TO, assoc.CLASS_TO_ID, "*", assoc.CLASS_FROM_MULTIPLICITY, assoc.CLASS_FROM_IS_STATIC, assoc.CLASS_FROM_IS_CONST, assoc.CLASS_FROM_VISIBILITY, assoc.CLASS_FROM_HAS_GETTER, assoc.CLASS_FROM_HAS_SETTER, assoc.USER_COMMENTS)
                             c.VISIBILITY = assoc.CLASS_FROM_VISIBILITY
                             result.append(c)
